@@ -41,6 +41,8 @@ structure ONet where
   /-- the case ran into known finding K3 (a pass-supervision retry collided with the successor's late start):
   everything after it is a consequence of that collision and is not judged again -/
   tainted : Bool := false
+  /-- token wrap-arounds (a token transmitted with DA ≤ SA) on the bus since the last change of the population / last fault -/
+  wraps : Nat := 0
 
 def bitsT (o : ONet) (b : Nat) : Int := (bitsToTime o.rate b : Nat)
 
@@ -65,6 +67,14 @@ def convBound (o : ONet) : Int :=
   let trot := (n : Int) * (bitsT o o.maxTtr + bitsT o o.slotBits + bitsT o 200)
   tto + (n : Int) * ((o.hsa + g + 5 : Nat) : Int) * trot
 
+/-- Convergence bound in token rotations (DESIGN 5.4): each of the at most `n` stations still to be
+admitted needs two rotations of listening plus one GAP sweep (≤ HSA polls, one per rotation) plus the
+GAP wait of its predecessor, with slack. -/
+def rotBound (o : ONet) : Nat :=
+  let n := (o.sts.filter (·.online)).length
+  let g := (o.sts.map (·.gapWait)).foldl max 0
+  n * (o.hsa + g + 5) + 5
+
 def oracleNet (want : String) (o : ONet) (op obs : String) : ONet × Option (String × String) :=
   match splitWords op with
   | "net.new" :: rate :: slot :: hsa :: _ :: specs =>
@@ -77,13 +87,13 @@ def oracleNet (want : String) (o : ONet) (op obs : String) : ONet × Option (Str
   | ["net.online", i, now] =>
     let i := i.toNat!
     let f : NStation → NStation := fun s => { s with online := true, inring := false, las := [], fsm := "Offline" }
-    ({ o with sts := o.sts.modify i f, lastChange := now.toInt!, agreed := false }, none)
+    ({ o with sts := o.sts.modify i f, lastChange := now.toInt!, agreed := false, wraps := 0 }, none)
   | ["net.offline", i, now] =>
     let i := i.toNat!
     let f : NStation → NStation := fun s => { s with online := false, inring := false }
-    ({ o with sts := o.sts.modify i f, lastChange := now.toInt!, agreed := false, faulty := true }, none)
-  | ["net.corrupt", _, z] => ({ o with faulty := true, lastChange := max o.lastChange z.toInt!, agreed := false }, none)
-  | ["net.drop", _] => ({ o with faulty := true, lastChange := o.lastTime, agreed := false }, none)
+    ({ o with sts := o.sts.modify i f, lastChange := now.toInt!, agreed := false, faulty := true, wraps := 0 }, none)
+  | ["net.corrupt", _, z] => ({ o with faulty := true, lastChange := max o.lastChange z.toInt!, agreed := false, wraps := 0 }, none)
+  | ["net.drop", _] => ({ o with faulty := true, lastChange := o.lastTime, agreed := false, wraps := 0 }, none)
   | ["net.poll", iS, nowS] =>
     let i := iS.toNat!
     let now := nowS.toInt!
@@ -151,10 +161,14 @@ def oracleNet (want : String) (o : ONet) (op obs : String) : ONet × Option (Str
             some ("C02", s!"agreement lost: station #{sNew.addr} now has inring={sNew.inring} LAS={sNew.las} NS={sNew.ns} PS={sNew.ps} while the online set is {S}")
           else if ¬ o2.agreed ∧ now - o.lastChange > convBound o1 then
             some ("C02", s!"no agreement on the ring {S} within the convergence bound ({convBound o1} us after the last change)")
+          else if ¬ o2.agreed ∧ o.wraps > rotBound o1 then
+            some ("C02", s!"no agreement on the ring {S} after {o.wraps} token rotations since the last change (bound {rotBound o1} rotations)")
           else none
         else if want = "C06" ∧ o.faulty ∧ ¬ o.tainted ∧ ¬ isK3 then
           if ¬ o2.agreed ∧ now - o.lastChange > convBound o1 then
             some ("C06", s!"ring {S} not re-established within the recovery bound ({convBound o1} us after the last disturbance)")
+          else if ¬ o2.agreed ∧ o.wraps > rotBound o1 then
+            some ("C06", s!"ring {S} not re-established after {o.wraps} token rotations since the last disturbance (bound {rotBound o1} rotations)")
           else none
         else none
       -- ------------------------------------------------------------ C13 rotation bound
@@ -168,6 +182,10 @@ def oracleNet (want : String) (o : ONet) (op obs : String) : ONet × Option (Str
             some ("C13", s!"station #{sOld.addr} got the token again only after {now - t0} us (bound {bound} us)")
           else none
         | none => none
+      let isWrap : Bool := match r.tx with
+        | some b => (match isTokenFrame b with | some (da, sa) => decide (da ≤ sa) && decide (now > o.lastChange) | none => false)
+        | none => false
+      let o2 : ONet := { o2 with wraps := if isWrap then o2.wraps + 1 else o2.wraps }
       let o3 : ONet := match r.tx with
         | some b => { o2 with lastTxEnd := some (now + ((11 * b.length * 1000000 + o.rate - 1) / o.rate : Nat)), lastTxSender := i,
                               lastTxBytes := b, prevTx := o2.prevTx.set i b, tainted := o2.tainted || isK3 }
